@@ -152,7 +152,8 @@ def run_check(prop_id, mod_name, tier, n_cases, wall_cap, level, rule, assumptio
     vio_paths = []
     if unknown:
         rc = 1
-        os.makedirs(os.path.join(VERIF, "replays"), exist_ok=True)
+        rdir = os.path.join(VERIF, "replays") if not os.environ.get("S4SIM_NO_EVIDENCE") else os.path.join(core.scratch_root(), "replays-selftest")
+        os.makedirs(rdir, exist_ok=True)
         reported = set()
         for (i, v) in unknown:
             if v.cls in reported:
@@ -164,7 +165,7 @@ def run_check(prop_id, mod_name, tier, n_cases, wall_cap, level, rule, assumptio
                     rp = mod.minimise(rp, v.cls)
             except Exception:
                 sys.stderr.write("minimiser failed (reporting unminimised):\n" + traceback.format_exc())
-            path = os.path.join(VERIF, "replays", "%s-%s-%d.json" % (prop_id, v.cls, core.derive(seed, prop_id, i) % 10**9))
+            path = os.path.join(rdir, "%s-%s-%d.json" % (prop_id, v.cls, core.derive(seed, prop_id, i) % 10**9))
             doc = {"version": 1, "property": prop_id, "class": v.cls, "verif_seed": seed, "case": i,
                    "detail": v.detail[:4000], "replay": rp}
             with open(path, "w") as fh:
@@ -207,9 +208,10 @@ def run_check(prop_id, mod_name, tier, n_cases, wall_cap, level, rule, assumptio
         "wall_s": round(wall, 2),
         "violations": len(unknown),
     }
-    os.makedirs(os.path.join(VERIF, "evidence"), exist_ok=True)
-    with open(os.path.join(VERIF, "evidence", "%s.json" % prop_id), "w") as fh:
-        json.dump(ev, fh, indent=1, default=str)
+    if not os.environ.get("S4SIM_NO_EVIDENCE"):
+        os.makedirs(os.path.join(VERIF, "evidence"), exist_ok=True)
+        with open(os.path.join(VERIF, "evidence", "%s.json" % prop_id), "w") as fh:
+            json.dump(ev, fh, indent=1, default=str)
     print("%s %s: %d cases, %d simulated runs, %d distinct non-trivial, %d steps, %.1fs, violations=%d known=%s" % (
         prop_id, tier, done, agg.runs, len(distinct), agg.steps, wall, len(unknown), sorted(seen_known)))
     return rc
